@@ -262,7 +262,9 @@ def _scn2d(rng):
             for t, nv in nout.items():
                 vn = V[0] * nv[0] + V[1] * nv[1]
                 if abs(vn) < 1e-9 * mach * c:
-                    bcl[t] = {"type": "sym"}
+                    # flow exactly tangential to this side: a wall, or the same supersonic inlet / outlet conditions as on the other sides
+                    # (their imposed / copied state is the uniform state itself, whatever the side)
+                    bcl[t] = [{"type": "sym"}, {"type": "insup", "ptot": float(pt), "rttot": float(rtt), "p": p, "angle": ang}, {"type": "outsup"}][int(rng.integers(3))]
                     V[1 if nv[0] == 0 else 0] = 0.0          # exactly tangential
                 elif vn < 0:
                     bcl[t] = {"type": "insup", "ptot": float(pt), "rttot": float(rtt), "p": p, "angle": ang}
